@@ -93,9 +93,25 @@ theorem becomeFollower_role (n : Node) (l : Option Nat) : (becomeFollower n l).r
 @[simp] theorem becomeFollower_llt (n : Node) (l : Option Nat) : (becomeFollower n l).llt = n.llt := by
   unfold becomeFollower; cases n.role <;> simp
 
-theorem becomeFollower_vf (n : Node) (l : Option Nat) (h : n.role ≠ .follower) : (becomeFollower n l).vf = none := by
+theorem keepCurrentVote_cases (t : Nat) (vf : Option VF) :
+    keepCurrentVote t vf = vf ∨ (keepCurrentVote t vf = none ∧ ∀ v, vf = some v → v.term < t) := by
+  unfold keepCurrentVote
+  cases vf with
+  | none => left; rfl
+  | some v =>
+    by_cases h : v.term < t
+    · right; simp only [h, if_true, true_and]; intro v' hv; cases hv; exact h
+    · left; simp [h]
+
+/-- a step-down keeps the vote or forgets one of an older term -/
+theorem becomeFollower_vf_cases (n : Node) (l : Option Nat) :
+    (becomeFollower n l).vf = n.vf ∨ ((becomeFollower n l).vf = none ∧ ∀ v, n.vf = some v → v.term < n.term) := by
   unfold becomeFollower
-  cases hr : n.role <;> simp_all
+  cases hr : n.role
+  · left; rfl
+  all_goals
+    simp only [notify_vf]
+    exact keepCurrentVote_cases n.term n.vf
 
 /-! ### vote requests -/
 
@@ -184,41 +200,6 @@ theorem follower_grants_fresh (n : Node) (r : VoteReq) (hvf : n.vf = none) (ht :
   have h1 : ¬ r.term < n.term := by omega
   simp only [h1, if_false, hlog, Bool.not_true, Bool.false_eq_true, hvf, ite_self, VoteDecision.granted]
 
-theorem candidateOnVoteReq_spec (isL : Nat → Nat → Prop) (n : Node) (r : VoteReq) (hrole : n.role = .candidate) :
-    ((candidateOnVoteReq n r).2.granted = true → Granted n (candidateOnVoteReq n r).1 r) ∧
-    ((candidateOnVoteReq n r).2.granted = false → Quiet isL n (candidateOnVoteReq n r).1) := by
-  unfold candidateOnVoteReq
-  by_cases hl : checkVoteRequestIsLegal r n.term n.lli n.llt n.vf = true
-  · simp only [hl, if_true]
-    have hs := checkLegal_spec hl
-    -- after adopting the term and stepping down the follower has no vote and grants
-    let n1 : Node := becomeFollower { n with term := r.term } none
-    have hn1role : n1.role = .follower := becomeFollower_role _ _
-    have hn1vf : n1.vf = none := becomeFollower_vf _ _ (by simp [hrole])
-    have hn1term : n1.term = r.term := by simp [n1]
-    have hn1lli : n1.lli = n.lli := by simp [n1]
-    have hn1llt : n1.llt = n.llt := by simp [n1]
-    have hn1id : n1.id = n.id := by simp [n1]
-    have hgr : (voteDecision r n1.term n1.vf n1.lli n1.llt).granted = true :=
-      follower_grants_fresh n1 r hn1vf (by omega) (by rw [hn1lli, hn1llt]; exact hs.2.1)
-    have hf := (followerOnVoteReq_spec isL n1 r (by simp [hn1role])).1
-    have hgranted : (followerOnVoteReq n1 r).2.granted = true := by
-      simp [followerOnVoteReq, handleVoteRequest, hgr]
-    have g := hf hgranted
-    refine ⟨fun _ => ?_, fun h => by simp [n1] at hgranted; simp [hgranted] at h⟩
-    refine ⟨by rw [g.id, hn1id], g.term', g.vf', ?_, g.role'⟩
-    by_cases hlt : n.term < r.term
-    · exact Or.inl hlt
-    · have heq : n.term = r.term := by omega
-      right
-      refine ⟨heq, ?_⟩
-      rcases hs.2.2 with h0 | ⟨v, hv, h0 | h0⟩
-      · exact Or.inl h0
-      · exact Or.inr (Or.inr ⟨v, hv, Or.inr h0⟩)
-      · exact Or.inr (Or.inr ⟨v, hv, Or.inl (by omega)⟩)
-  · simp only [hl, Bool.false_eq_true, if_false, denyResp]
-    exact ⟨fun h => by simp at h, fun _ => Quiet.refl isL n⟩
-
 /-- a follower that does not grant keeps its vote -/
 theorem followerOnVoteReq_deny_vf (n : Node) (r : VoteReq) (h : (followerOnVoteReq n r).2.granted = false) :
     (followerOnVoteReq n r).1.vf = n.vf := by
@@ -228,33 +209,73 @@ theorem followerOnVoteReq_deny_vf (n : Node) (r : VoteReq) (h : (followerOnVoteR
   · simp only [hg, Bool.false_eq_true, if_false]
     split <;> rfl
 
+/-- candidate / leader path: adopt the request term, step down, replay the request on the follower -/
+theorem stepDown_then_vote_spec (isL : Nat → Nat → Prop) (n : Node) (r : VoteReq) (hle : n.term ≤ r.term) :
+    ((followerOnVoteReq (becomeFollower { n with term := r.term } none) r).2.granted = true →
+        Granted n (followerOnVoteReq (becomeFollower { n with term := r.term } none) r).1 r) ∧
+    ((followerOnVoteReq (becomeFollower { n with term := r.term } none) r).2.granted = false →
+        Quiet isL n (followerOnVoteReq (becomeFollower { n with term := r.term } none) r).1) := by
+  have hn1role : (becomeFollower { n with term := r.term } none).role = .follower := becomeFollower_role _ _
+  have hn1term : (becomeFollower { n with term := r.term } none).term = r.term := by simp
+  have hn1id : (becomeFollower { n with term := r.term } none).id = n.id := by simp
+  have hn1vf : (becomeFollower { n with term := r.term } none).vf = n.vf ∨
+      ((becomeFollower { n with term := r.term } none).vf = none ∧ ∀ v, n.vf = some v → v.term < r.term) :=
+    becomeFollower_vf_cases { n with term := r.term } none
+  generalize becomeFollower { n with term := r.term } none = n1 at *
+  have hf := followerOnVoteReq_spec isL n1 r (by simp [hn1role])
+  refine ⟨fun h => ?_, fun h => ?_⟩
+  · have g := hf.1 h
+    refine ⟨by rw [g.id, hn1id], g.term', g.vf', ?_, g.role'⟩
+    by_cases hlt : n.term < r.term
+    · exact Or.inl hlt
+    · have heq : n.term = r.term := by omega
+      right
+      refine ⟨heq, ?_⟩
+      rcases g.pre with h1 | ⟨_, h1⟩
+      · omega
+      · rcases hn1vf with hv | ⟨hv, hstale⟩
+        · rw [hv] at h1
+          rcases h1 with h1 | h1 | ⟨v, hv', h1⟩
+          · exact Or.inl h1
+          · exact Or.inr (Or.inl h1)
+          · exact Or.inr (Or.inr ⟨v, hv', by rcases h1 with h1 | h1; exact Or.inl (by omega); exact Or.inr h1⟩)
+        · cases hnv : n.vf with
+          | none => exact Or.inl rfl
+          | some v => exact Or.inr (Or.inr ⟨v, rfl, Or.inl (by have := hstale v hnv; omega)⟩)
+  · have q := hf.2 h
+    have hterm := q.term
+    rw [hn1term] at hterm
+    have hvf := followerOnVoteReq_deny_vf n1 r h
+    refine ⟨by rw [q.id, hn1id], by omega, ?_, ?_⟩
+    · rcases hn1vf with hv | ⟨hv, hstale⟩
+      · left; rw [hvf, hv]
+      · right; left
+        refine ⟨by rw [hvf, hv], ?_⟩
+        by_cases hlt : n.term < r.term
+        · exact Or.inl (by omega)
+        · right; intro v hv'; have := hstale v hv'; omega
+    · intro hlead
+      have := q.leader hlead
+      rw [hn1role] at this
+      cases this.1
+
+theorem candidateOnVoteReq_spec (isL : Nat → Nat → Prop) (n : Node) (r : VoteReq) (hrole : n.role = .candidate) :
+    ((candidateOnVoteReq n r).2.granted = true → Granted n (candidateOnVoteReq n r).1 r) ∧
+    ((candidateOnVoteReq n r).2.granted = false → Quiet isL n (candidateOnVoteReq n r).1) := by
+  unfold candidateOnVoteReq
+  by_cases hl : checkVoteRequestIsLegal r n.term n.lli n.llt n.vf = true
+  · simp only [hl, if_true]
+    exact stepDown_then_vote_spec isL n r (checkLegal_spec hl).1
+  · simp only [hl, Bool.false_eq_true, if_false, denyResp]
+    exact ⟨fun h => by simp at h, fun _ => Quiet.refl isL n⟩
+
 theorem leaderOnVoteReq_spec (isL : Nat → Nat → Prop) (n : Node) (r : VoteReq) (hrole : n.role = .leader) :
     ((leaderOnVoteReq n r).2.granted = true → Granted n (leaderOnVoteReq n r).1 r) ∧
     ((leaderOnVoteReq n r).2.granted = false → Quiet isL n (leaderOnVoteReq n r).1) := by
   unfold leaderOnVoteReq
   by_cases hl : n.term < r.term
   · simp only [hl, if_true]
-    have hn1role : (becomeFollower { n with term := r.term } none).role = .follower := becomeFollower_role _ _
-    have hn1vf : (becomeFollower { n with term := r.term } none).vf = none :=
-      becomeFollower_vf _ _ (by simp [hrole])
-    have hn1term : (becomeFollower { n with term := r.term } none).term = r.term := by simp
-    have hn1id : (becomeFollower { n with term := r.term } none).id = n.id := by simp
-    generalize becomeFollower { n with term := r.term } none = n1 at *
-    have hf := followerOnVoteReq_spec isL n1 r (by simp [hn1role])
-    refine ⟨fun h => ?_, fun h => ?_⟩
-    · have g := hf.1 h
-      exact ⟨by rw [g.id, hn1id], g.term', g.vf', Or.inl hl, g.role'⟩
-    · have q := hf.2 h
-      have hterm := q.term
-      rw [hn1term] at hterm
-      refine ⟨by rw [q.id, hn1id], by omega, ?_, ?_⟩
-      · have hvf := followerOnVoteReq_deny_vf n1 r h
-        rw [hn1vf] at hvf
-        exact Or.inr (Or.inl ⟨hvf, Or.inl (by omega)⟩)
-      · intro hlead
-        have := q.leader hlead
-        rw [hn1role] at this
-        cases this.1
+    exact stepDown_then_vote_spec isL n r (Nat.le_of_lt hl)
   · simp only [hl, if_false, denyResp]
     exact ⟨fun h => by simp at h, fun _ => Quiet.refl isL n⟩
 
@@ -340,7 +361,7 @@ theorem onAppendEntries_quiet (isL : Nat → Nat → Prop) (n : Node) (t l : Nat
     · simp only [h, if_true]
       exact Quiet.refl isL n
     · simp only [h, if_false]
-      exact stepDown_then_AE_quiet isL n n t l (some l) hL hl0 rfl (Nat.le_refl _) (by omega)
+      exact stepDown_then_AE_quiet isL n { n with term := t } t l (some l) hL hl0 rfl (by simp; omega) (by simp)
 
 /-! ### other quiet steps -/
 
@@ -350,27 +371,21 @@ theorem becomeCandidate_quiet (isL : Nat → Nat → Prop) (n : Node) : Quiet is
   · exact ⟨by simp, by simp, Or.inl (by simp), fun h => by simp at h⟩
   all_goals exact Quiet.refl isL n
 
-theorem becomeFollower_quiet_stale (isL : Nat → Nat → Prop) (n : Node) (l : Option Nat)
-    (h : ∀ v, n.vf = some v → v.term < n.term) : Quiet isL n (becomeFollower n l) := by
-  by_cases hr : n.role = .follower
-  · have : becomeFollower n l = n := by unfold becomeFollower; simp [hr]
-    rw [this]; exact Quiet.refl isL n
-  · refine ⟨by simp, by simp, Or.inr (Or.inl ⟨becomeFollower_vf n l hr, Or.inr h⟩), fun hl => ?_⟩
-    rw [becomeFollower_role] at hl
-    cases hl
+/-- `BecomeFollower` alone: the vote is kept, or a vote of an older term is forgotten -/
+theorem becomeFollower_quiet (isL : Nat → Nat → Prop) (n : Node) (l : Option Nat) :
+    Quiet isL n (becomeFollower n l) := by
+  refine ⟨by simp, by simp, ?_, fun hl => by rw [becomeFollower_role] at hl; cases hl⟩
+  rcases becomeFollower_vf_cases n l with h | ⟨h, hs⟩
+  · left; rw [h]
+  · right; left; exact ⟨h, Or.inr hs⟩
 
 /-- adopting a strictly higher term and stepping down -/
 theorem bumpAndStepDown_quiet (isL : Nat → Nat → Prop) (n : Node) (t : Nat) (h : n.term < t) :
     Quiet isL n (becomeFollower { n with term := t } none) := by
-  by_cases hr : n.role = .follower
-  · have : becomeFollower { n with term := t } none = { n with term := t } := by
-      unfold becomeFollower; simp [hr]
-    rw [this]
-    exact ⟨rfl, Nat.le_of_lt h, Or.inl rfl, fun hl => by simp [hr] at hl⟩
-  · refine ⟨by simp, by simp; omega, Or.inr (Or.inl ⟨becomeFollower_vf _ _ (by simpa using hr), Or.inl (by simpa using h)⟩),
-      fun hl => ?_⟩
-    rw [becomeFollower_role] at hl
-    cases hl
+  refine ⟨by simp, by simp; omega, ?_, fun hl => by rw [becomeFollower_role] at hl; cases hl⟩
+  rcases becomeFollower_vf_cases { n with term := t } none with hv | ⟨hv, _⟩
+  · left; rw [hv]
+  · right; left; exact ⟨hv, Or.inl (by simpa using h)⟩
 
 theorem leaderOnHigherTerm_quiet (isL : Nat → Nat → Prop) (n : Node) (t : Nat) :
     Quiet isL n (leaderOnHigherTerm n t) := by
